@@ -71,6 +71,133 @@ def canonical_names(d):
     return out
 
 
+def _places(node, role='other', out=None):
+    """every place dict in a MIR node with the role it plays: dest | operand | ref | other"""
+    if out is None:
+        out = []
+    if isinstance(node, dict):
+        if 'local' in node and 'proj' in node and isinstance(node.get('proj'), list):
+            out.append((node, role))
+            for e in node['proj']:
+                _places(e, 'other', out)
+            return out
+        k = node.get('k')
+        for key, v in node.items():
+            if key in ('span', 'fn_span', 'callee'):
+                continue
+            r = 'other'
+            if key in ('place', 'dest') and k in ('Assign', 'Call'):
+                r = 'dest'
+            elif key == 'place' and k in ('Copy', 'Move'):
+                r = 'operand'
+            elif key == 'place' and k in ('Ref', 'RawPtr'):
+                r = 'ref'
+            _places(v, r, out)
+    elif isinstance(node, list):
+        for v in node:
+            _places(v, role, out)
+    return out
+
+
+def sroa(d):
+    """scalar replacement of struct locals that are filled field by field (`let mut flags = Flags::default(); flags.a = ..;
+    .. Ok(flags)`): every field becomes a local of its own, the whole value is rebuilt as an aggregate where it is used.
+    Grouping state variables into a struct then leaves every rule that follows definitions of locals unchanged."""
+    adts = {a['path']: a for a in d['adts'] if a.get('kind') == 'Struct' and len(a.get('variants', [])) == 1}
+    done = []
+    for f in d['fns']:
+        if f.get('derived'):
+            continue
+        cands = [l['i'] for l in f['locals'] if l['i'] > f['arg_count'] and l['ty'] in adts]
+        if not cands:
+            continue
+        occ = defaultdict(list)
+        for bi, b in enumerate(f['blocks']):
+            for si, st in enumerate(b['stmts']):
+                for pl, role in _places(st):
+                    occ[pl['local']].append((bi, si, pl, role))
+            for pl, role in _places(b['term']):
+                occ[pl['local']].append((bi, 'term', pl, role))
+        preds = defaultdict(set)
+        for bi, b in enumerate(f['blocks']):
+            t = b['term']
+            for key in ('target', 'otherwise'):
+                if isinstance(t.get(key), int):
+                    preds[t[key]].add(bi)
+            for tg in t.get('targets', []) or []:
+                preds[tg[1] if isinstance(tg, list) else tg].add(bi)
+        for L in cands:
+            os_ = occ.get(L, [])
+            fstores = [o for o in os_ if o[3] == 'dest' and o[2]['proj'] and o[2]['proj'][0].get('k') == 'Field']
+            if not fstores:
+                continue
+            ok = True
+            for bi, si, pl, role in os_:
+                if pl['proj']:
+                    if pl['proj'][0].get('k') != 'Field':
+                        ok = False
+                elif role not in ('dest', 'operand'):
+                    ok = False
+                elif role == 'dest' and si == 'term':
+                    tg = f['blocks'][bi]['term'].get('target')
+                    if tg is None or len(preds[tg]) != 1:
+                        ok = False
+            if not ok:
+                continue
+            adt = adts[f['locals'][L]['ty']]
+            fields = adt['variants'][0]['fields']
+            base = len(f['locals'])
+            name = next((x['name'] for x in f['debug'] if x['place']['local'] == L and not x['place']['proj']), '_%d' % L)
+            newl = {}
+            for i, fd in enumerate(fields):
+                idx = base + i
+                newl[i] = idx
+                f['locals'].append({'i': idx, 'ty': fd['ty'], 'span': f['locals'][L]['span'], 'sroa': [L, fd['name']]})
+                f['debug'].append({'name': '%s.%s' % (name, fd['name']), 'place': {'local': idx, 'proj': [], 'ty': fd['ty']}, 'arg': None})
+            sp = f['locals'][L]['span']
+            # 1. field accesses
+            for bi, si, pl, role in os_:
+                if pl['proj']:
+                    i = pl['proj'][0]['i']
+                    pl['local'] = newl[i]
+                    pl['proj'] = pl['proj'][1:]
+            # 2. whole uses: rebuild the aggregate in front of the use
+            ins = defaultdict(list)      # (block, position) -> statements to insert before
+            for bi, si, pl, role in os_:
+                if not pl['proj'] and pl['local'] == L and role == 'operand':
+                    tmp = len(f['locals'])
+                    f['locals'].append({'i': tmp, 'ty': f['locals'][L]['ty'], 'span': sp, 'sroa': [L, None]})
+                    pl['local'] = tmp
+                    st = {'k': 'Assign', 'place': {'local': tmp, 'proj': [], 'ty': f['locals'][L]['ty']}, 'span': sp, 'sroa': True,
+                          'rv': {'k': 'Aggregate', 'agg': 'Adt', 'adt': adt['path'], 'variant': adt['variants'][0]['name'], 'is_enum': False,
+                                 'fields': [fd['name'] for fd in fields],
+                                 'ops': [{'k': 'Copy', 'place': {'local': newl[i], 'proj': [], 'ty': fd['ty']}} for i, fd in enumerate(fields)]}}
+                    ins[(bi, si)].append(st)
+            # 3. whole definitions: split into the fields right after
+            for bi, si, pl, role in os_:
+                if not pl['proj'] and pl['local'] == L and role == 'dest':
+                    sts = [{'k': 'Assign', 'place': {'local': newl[i], 'proj': [], 'ty': fd['ty']}, 'span': sp, 'sroa': True,
+                            'rv': {'k': 'Use', 'op': {'k': 'Copy', 'place': {'local': L, 'proj': [{'k': 'Field', 'i': i, 'name': fd['name'], 'adt': adt['path']}], 'ty': fd['ty']}}}}
+                           for i, fd in enumerate(fields)]
+                    if si == 'term':
+                        ins[(f['blocks'][bi]['term']['target'], 0)] = sts + ins.get((f['blocks'][bi]['term']['target'], 0), [])
+                    else:
+                        ins[(bi, si + 1)] = sts + ins.get((bi, si + 1), [])
+            for bi, b in enumerate(f['blocks']):
+                keys = [k for k in ins if k[0] == bi]
+                if not keys:
+                    continue
+                out = []
+                for si, st in enumerate(b['stmts']):
+                    out.extend(ins.get((bi, si), []))
+                    out.append(st)
+                out.extend(ins.get((bi, len(b['stmts'])), []))
+                out.extend(ins.get((bi, 'term'), []))
+                b['stmts'] = out
+            done.append((f['id'], name, adt['path']))
+    return done
+
+
 class Program:
     def __init__(self, path):
         with open(path) as fh:
@@ -83,6 +210,7 @@ class Program:
                 sa, sr = '::'.join(actual.split('::')[-2:]), '::'.join(role.split('::')[-2:])
                 text = re.sub(r'(?<![\w:])' + re.escape(sa) + r'(?![\w])', sr, text)
             d = json.loads(text)
+        self.sroa = sroa(d)
         self.raw = d
         self.crate = d['crate']
         self.fns = {}
